@@ -203,6 +203,48 @@ def work_cli(chunk, st):
     st.sample({'product': chunk[0][0], 'algorithm': chunk[0][3], 'appeared_in': chunk[0][1], 'server_version': chunk[0][4]}, cap=10)
 
 
+def history_tasks():
+    """Pairs/triples of banners of one product, straddling first-appeared versions, audited in one -T invocation in every order."""
+    out = []
+    fa = first_appeared()
+    for prod, d in fa.items():
+        vers = sorted(d, key=vt)
+        probes = sorted(set([around(vers[0])[0], vers[len(vers) // 2], vers[-1]] + EXTRA[prod][:2]), key=vt)
+        for a, b in itertools.permutations(probes, 2):
+            out.append((prod, (a, b)))
+        out.append((prod, tuple(probes[:3])))
+        out.append((prod, tuple(reversed(probes[-3:]))))
+    return out
+
+
+def work_history(chunk, st):
+    fa = first_appeared()
+    for prod, versions in chunk:
+        fmt, _ = PRODUCTS[prod]
+        for jf in (False, True):
+            servers = [P.Server(banner=(fmt % (v, '')).encode(), kex=['sntrup761x25519-sha512@openssh.com'], key=['ssh-frob@example.org'],
+                                enc=['aes256-gcm@openssh.com'], mac=['hmac-sha2-512-etm@openssh.com']) for v in versions]
+            res, outs = H.audit_sequence(servers, opts=['-n', '--skip-rate-test'] + (['-j'] if jf else []))
+            st.execution(res.world, outcome=('history', prod, len(versions), jf), root=('history', prod, versions, jf), nontrivial=('history', prod, versions, jf))
+            if outs is None or len(outs) != len(versions):
+                st.violation('history:output-shape', {'product': prod, 'versions': versions, 'stdout': res.stdout[-200:]})
+                continue
+            for v, o in zip(versions, outs):
+                if jf:
+                    added = set((x['name'], cat) for lvl in o.get('recommendations', {}).values() for cat, lst in lvl.get('add', {}).items() for x in lst)
+                else:
+                    added = set((n, c) for s, n, c, _v, _x in report.TextReport(o).rec if s == '+')
+                for v0, (cat, name) in fa[prod].items():
+                    if name in ('sntrup761x25519-sha512@openssh.com', 'aes256-gcm@openssh.com', 'hmac-sha2-512-etm@openssh.com'):
+                        continue
+                    want = numcmp(v, v0) >= 0
+                    if ((name, cat) in added) != want:
+                        st.violation('history:availability-depends-on-other-targets:%s' % prod,
+                                     {'product': prod, 'versions_in_run': versions, 'server_version': v, 'algorithm': name, 'appeared_in': v0, 'recommended': (name, cat) in added})
+                        break
+    st.sample({'history': chunk[0][0], 'versions': chunk[0][1]}, cap=12)
+
+
 def run(tier, seed):
     t0 = time.time()
     st = evidence.Stats()
@@ -220,6 +262,7 @@ def run(tier, seed):
     for product in PRODUCTS:
         check_triples(product, st)
     par.pmap(work_cli, cli_tasks(), stats=st)
+    par.pmap(work_history, history_tasks(), stats=st, chunk=2)
     vcases = []
     for prod, v0, cat, name, v in H.pick(cli_tasks(), seed, 12 if tier == 'quick' else 60):
         fmt, _ = PRODUCTS[prod]
@@ -231,7 +274,8 @@ def run(tier, seed):
         rule='for OpenSSH, Dropbear, libssh (software objects parsed from real banners): all ordered pairs of %d versions with 1-2 components over '
              '%s; all ordered pairs of %d versions with 3-4 components over %s; all pairs and triples of a 60-element mixed set with patch suffixes; '
              'end-to-end: for every first-appeared version of a clean algorithm in the DB, banners just below/at/above it and multi-digit versions, '
-             '"(rec) +name" iff server version >= first-appeared version' % (len(v12), COMP if tier != 'quick' else 'a 10-value subset', len(v34), COMP34),
+             '"(rec) +name" iff server version >= first-appeared version; the same for every server of 2-3 servers of one product at different versions '
+             'audited in ONE invocation, in every order' % (len(v12), COMP if tier != 'quick' else 'a 10-value subset', len(v34), COMP34),
         assumptions=['numeric order = component-wise integer comparison with zero padding', 'pairs equal up to trailing zeros / patch level only need antisymmetry and transitivity'],
         exhaustive=True, traces_validated=validated)
 
